@@ -2,7 +2,7 @@
    M = giv_modulo, A = giv_multiplier (Params.v, regenerated from givrandom.h on every run).
    "orc" is GMP's generator as an oracle: any function honouring the documented range of mpz_urandomb / mpz_urandomm. *)
 From Coq Require Import ZArith.
-From C20 Require Import Params Model Model2 ProofsLcg ProofsInt ProofsOrder ProofsRing ProofsDest ProofsGfqx.
+From C20 Require Import Params Model Model2 Model3 ProofsLcg ProofsInt ProofsOrder ProofsRing ProofsDest ProofsGfqx ProofsDomain.
 Local Open Scope Z_scope.
 
 (* --- GivRandom *)
@@ -14,14 +14,19 @@ Theorem C20_lcg_stream_range : Lcg_stream_range_stmt.             Proof. exact l
 Print Assumptions C20_lcg_stream_range.
 Theorem C20_lcg_closed_form : Lcg_closed_form_stmt.               Proof. exact lcg_closed_form. Qed.
 Print Assumptions C20_lcg_closed_form.
-Theorem C20_lcg_same_seed_same_sequence : Lcg_deterministic_stmt. Proof. exact lcg_deterministic. Qed.
-Print Assumptions C20_lcg_same_seed_same_sequence.
+Theorem C20_lcg_nonzero_seed_never_reads_the_timer : Lcg_deterministic_stmt. Proof. exact lcg_deterministic. Qed.
+Print Assumptions C20_lcg_nonzero_seed_never_reads_the_timer.
 Theorem C20_lcg_multiplier_primitive_root : Primitive_root_stmt.  Proof. exact primitive_root. Qed.
 Print Assumptions C20_lcg_multiplier_primitive_root.
 Theorem C20_lcg_states_distinct : Lcg_distinct_stmt.              Proof. exact lcg_distinct. Qed.
 Print Assumptions C20_lcg_states_distinct.
-Theorem C20_lcg_every_nonzero_seed : Lcg_every_seed_verdict.      Proof. exact lcg_every_seed. Qed.
+(* statements about the body the tree under check HAS: `flag = true -> P` with the flag read from the source; checks/C20.py
+   reports a broken obligation, naming the theorem, when the flag does not have the good value.  The `_refuted_` twins are
+   history: what is provable about the body as first read (before the repair named in the comment). *)
+Theorem C20_lcg_every_nonzero_seed : giv_ctor_normalises = true -> Lcg_every_seed_stmt.      Proof. exact lcg_every_seed_norm. Qed.
 Print Assumptions C20_lcg_every_nonzero_seed.
+Theorem C20_lcg_every_nonzero_seed_refuted_without_normalisation : giv_ctor_normalises = false -> ~ Lcg_every_seed_stmt. Proof. exact lcg_every_seed_raw. Qed.
+Print Assumptions C20_lcg_every_nonzero_seed_refuted_without_normalisation.
 Theorem C20_lcg_zero_state_absorbing : Lcg_stuck_at_zero_stmt.    Proof. exact lcg_stuck_at_zero. Qed.
 Print Assumptions C20_lcg_zero_state_absorbing.
 Theorem C20_lcg_negative_state_out_of_range : Lcg_negative_seed_stmt. Proof. exact lcg_negative_seed. Qed.
@@ -54,7 +59,7 @@ Print Assumptions C20_qfield_random_canonical.
 Theorem C20_modular_integer_randiter : Modint_randiter_stmt.      Proof. exact modint_randiter_thm. Qed.
 Print Assumptions C20_modular_integer_randiter.
 (* --- rings, fields, polynomials on GivRandom; RecInt *)
-Theorem C20_ring_random_canonical : Ring_random_canonical_stmt.   Proof. exact ring_random_canonical. Qed.
+Theorem C20_ring_random_canonical : Ring_random_unsized_stmt.     Proof. exact ring_random_unsized. Qed.
 Print Assumptions C20_ring_random_canonical.
 Theorem C20_ring_nonzerorandom_canonical : Ring_nonzerorandom_canonical_stmt. Proof. exact ring_nonzerorandom_canonical. Qed.
 Print Assumptions C20_ring_nonzerorandom_canonical.
@@ -62,8 +67,10 @@ Theorem C20_ring_nonzerorandom_terminates : Ring_nonzerorandom_terminates_stmt. 
 Print Assumptions C20_ring_nonzerorandom_terminates.
 Theorem C20_ring_nonzerorandom_terminates_good_seed : Ring_nonzerorandom_good_seed_stmt. Proof. exact ring_nonzerorandom_good_seed_thm. Qed.
 Print Assumptions C20_ring_nonzerorandom_terminates_good_seed.
-Theorem C20_ring_nonzerorandom_every_nonzero_seed : Ring_nonzerorandom_every_seed_verdict. Proof. exact ring_nonzerorandom_every_seed. Qed.
+Theorem C20_ring_nonzerorandom_every_nonzero_seed : giv_ctor_normalises = true -> Ring_nonzerorandom_every_seed_stmt. Proof. exact ring_nonzerorandom_every_seed_norm. Qed.
 Print Assumptions C20_ring_nonzerorandom_every_nonzero_seed.
+Theorem C20_ring_nonzerorandom_every_nonzero_seed_refuted_without_normalisation : giv_ctor_normalises = false -> ~ Ring_nonzerorandom_every_seed_stmt. Proof. exact ring_nonzerorandom_every_seed_raw. Qed.
+Print Assumptions C20_ring_nonzerorandom_every_nonzero_seed_refuted_without_normalisation.
 Theorem C20_gfq_random : Gfq_random_stmt.                         Proof. exact gfq_random_range. Qed.
 Print Assumptions C20_gfq_random.
 Theorem C20_gfq_nonzerorandom : Gfq_nonzerorandom_stmt.           Proof. exact gfq_nonzerorandom_range. Qed.
@@ -87,22 +94,24 @@ Print Assumptions C20_modular_recint_random.
 Theorem C20_modular_recint_nonzerorandom : Modru_nonzerorandom_stmt. Proof. exact modru_nonzerorandom_range. Qed.
 Print Assumptions C20_modular_recint_nonzerorandom.
 (* --- phase 3: destinations that are not fresh, iterator classes as objects, Montgomery forms *)
-Theorem C20_poly_random_destination_independent : Poly_into_indep_verdict. Proof. exact poly_into_indep. Qed.
+Theorem C20_poly_random_destination_independent : poly_random_resizes = true -> Poly_into_indep_stmt. Proof. exact poly_into_indep_true. Qed.
 Print Assumptions C20_poly_random_destination_independent.
-Theorem C20_poly_random_gfq_destination_independent : Poly_gfq_into_indep_verdict. Proof. exact poly_gfq_into_indep. Qed.
+Theorem C20_poly_random_destination_independent_refuted_for_grow_only : poly_random_resizes = false -> ~ Poly_into_indep_stmt. Proof. exact poly_into_indep_false. Qed.
+Print Assumptions C20_poly_random_destination_independent_refuted_for_grow_only.
+Theorem C20_poly_random_gfq_destination_independent : poly_random_resizes = true -> Poly_gfq_into_indep_stmt. Proof. exact poly_gfq_into_indep_true. Qed.
 Print Assumptions C20_poly_random_gfq_destination_independent.
-Theorem C20_poly_sequence_on_one_destination : Poly_seq_verdict.  Proof. exact poly_seq_thm. Qed.
+Theorem C20_poly_sequence_on_one_destination : Poly_seq_dom_stmt. Proof. exact poly_seq_dom. Qed.
 Print Assumptions C20_poly_sequence_on_one_destination.
-Theorem C20_poly_sequence_gfq_on_one_destination : Poly_seq_gfq_verdict. Proof. exact poly_seq_gfq_thm. Qed.
+Theorem C20_poly_sequence_gfq_on_one_destination : Poly_seq_gfq_dom_stmt. Proof. exact poly_seq_gfq_dom. Qed.
 Print Assumptions C20_poly_sequence_gfq_on_one_destination.
 Theorem C20_integer_draw_destination_independent : Int_dest_indep_stmt. Proof. exact int_dest_indep. Qed.
 Print Assumptions C20_integer_draw_destination_independent.
-Theorem C20_randiter_reproducible : Randiter_repro_stmt.          Proof. exact randiter_repro. Qed.
-Print Assumptions C20_randiter_reproducible.
+Theorem C20_randiter_ctor_ignores_timer_and_draws_ignore_destination : Randiter_repro_stmt. Proof. exact randiter_repro. Qed.
+Print Assumptions C20_randiter_ctor_ignores_timer_and_draws_ignore_destination.
 Theorem C20_randiter_run_canonical : Randiter_run_stmt.           Proof. exact randiter_run. Qed.
 Print Assumptions C20_randiter_run_canonical.
-Theorem C20_gmp_seeding_iterators_reproducible : Gmp_iter_ctor_stmt. Proof. exact gmp_iter_ctor. Qed.
-Print Assumptions C20_gmp_seeding_iterators_reproducible.
+Theorem C20_gmp_seeding_value_ignores_the_timer : Gmp_iter_ctor_stmt. Proof. exact gmp_iter_ctor. Qed.
+Print Assumptions C20_gmp_seeding_value_ignores_the_timer.
 Theorem C20_modular_integer_randiter_seeding : Mii_seeding_stmt.  Proof. exact mii_seeding. Qed.
 Print Assumptions C20_modular_integer_randiter_seeding.
 Theorem C20_modular_integer_nonzero_randiter : Modint_nonzero_stmt. Proof. exact modint_nonzero_range. Qed.
@@ -119,5 +128,28 @@ Theorem C20_gfqext_table_indices_in_bounds : Gfqx_indices_stmt.   Proof. exact g
 Print Assumptions C20_gfqext_table_indices_in_bounds.
 Theorem C20_gfqext_random_canonical : Gfqx_random_stmt.           Proof. exact gfqx_random_thm. Qed.
 Print Assumptions C20_gfqext_random_canonical.
-Theorem C20_randiter_assignment_continues_like_source : Randiter_assign_verdict. Proof. exact randiter_assign. Qed.
+Theorem C20_randiter_assignment_continues_like_source : randiter_assign_copies_size = true -> Randiter_assign_stmt. Proof. exact randiter_assign_true. Qed.
 Print Assumptions C20_randiter_assignment_continues_like_source.
+Theorem C20_randiter_assignment_refuted_without_size_copy : randiter_assign_copies_size = false -> ~ Randiter_assign_stmt. Proof. exact randiter_assign_false. Qed.
+Print Assumptions C20_randiter_assignment_refuted_without_size_copy.
+(* --- phase 4: explicit domains of the sized draws, GMP's process-wide state, native-integer overloads *)
+Theorem C20_ring_random_sized : Ring_random_sized_stmt.            Proof. exact ring_random_sized. Qed.
+Print Assumptions C20_ring_random_sized.
+Theorem C20_ring_nonzerorandom_sized_terminates : Ring_nonzerorandom_sized_terminates_stmt. Proof. exact ring_nonzerorandom_sized_terminates. Qed.
+Print Assumptions C20_ring_nonzerorandom_sized_terminates.
+Theorem C20_ring_nonzerorandom_sized : Ring_nonzerorandom_sized_stmt. Proof. exact ring_nonzerorandom_sized. Qed.
+Print Assumptions C20_ring_nonzerorandom_sized.
+Theorem C20_ring_nonzerorandom_size_one_never_returned : Ring_nonzerorandom_size1_stmt. Proof. exact ring_nonzerorandom_size1. Qed.
+Print Assumptions C20_ring_nonzerorandom_size_one_never_returned.
+Theorem C20_gfq_sized_draws : Gfq_sized_stmt.                     Proof. exact gfq_sized. Qed.
+Print Assumptions C20_gfq_sized_draws.
+Theorem C20_poly_request_with_its_domain : Poly_request_src_stmt. Proof. exact poly_request_src_thm. Qed.
+Print Assumptions C20_poly_request_with_its_domain.
+Theorem C20_gmp_sequential_use_reproducible : forall strm, Gmp_sequential_stmt strm. Proof. exact gmp_sequential. Qed.
+Print Assumptions C20_gmp_sequential_use_reproducible.
+Theorem C20_gmp_stream_is_that_of_the_last_seeding : forall strm, Gmp_last_seeding_stmt strm. Proof. exact gmp_last_seeding. Qed.
+Print Assumptions C20_gmp_stream_is_that_of_the_last_seeding.
+Theorem C20_gmp_interleaved_use_not_reproducible : ~ Gmp_interleaved_stmt. Proof. exact gmp_interleaved_refuted. Qed.
+Print Assumptions C20_gmp_interleaved_use_not_reproducible.
+Theorem C20_integer_native_overloads_are_bit_sizes : Native_overloads_stmt. Proof. exact native_overloads. Qed.
+Print Assumptions C20_integer_native_overloads_are_bit_sizes.
